@@ -376,7 +376,8 @@ func c03Enum() *senum {
 		},
 		forInits: []nodeFn{nil, func() *rt.Node { return rt.Assign("=", Id("y"), I(0)) }},
 		forConds: []nodeFn{nil, func() *rt.Node { return rt.Bin("<", Id("x"), I(2)) }},
-		forSteps: []nodeFn{nil, func() *rt.Node { return inc("x") }, func() *rt.Node { return rt.Assign("=", Id("z"), Id("x")) }}, // the last one first assigns a name in the post clause
+		forSteps: []nodeFn{nil, func() *rt.Node { return inc("x") }, func() *rt.Node { return rt.Assign("=", Id("z"), Id("x")) }, // first assigns a name in the post clause
+			func() *rt.Node { return rt.Assign("=", Id("x"), rt.Bin("+", rt.Bin("+", Id("x"), I(1)), rt.Call("len", rt.List(Id("y"))))) }}, // mentions y, which a body may assign: the body's names are gone when the post clause runs
 		forIns: []func(body *rt.Node) *rt.Node{
 			func(b *rt.Node) *rt.Node { return rt.ForIn("y", rt.List(I(1), I(2)), b) },
 			func(b *rt.Node) *rt.Node { return rt.ForIn("x", rt.Str("ab"), b) },
@@ -451,7 +452,7 @@ func init() {
 		Level: "model_checking",
 		Rule: "(A) every ordered pair of 26 condition representatives (all truthiness classes; literals, variables, point keys, a tag, an absent name) in if/elif/else, and each as for-condition; " +
 			"(B) 17 iterables (lists, strings incl. multi-byte, 0/1/2-key maps, point values, non-iterables) x 4 loop-variable names (new, an outer variable, `_`, a point key) x 11 bodies (continue, break, nested loop, shadowing, mutation during iteration, body-locals read before assignment); " +
-			"(C) every program of total size <=3 (thorough <=4) statements, nesting <=3, over {probe(x,y), probe(pk,_), x=x+1, y=7, x+=10, pk=x, pk=nil, n0+=5 (a name that is only a point key), x=x/n0 (a run-time error while n0 is 0), break, continue} x if / if-else / if-elif-else x the 12 three-clause for shapes (init absent|y=0, condition absent|x<2, post absent|x=x+1|z=x) x 3 for-in forms, final probe of x, y, pk, z, n0; " +
+			"(C) every program of total size <=3 (thorough <=4) statements, nesting <=3, over {probe(x,y), probe(pk,_), x=x+1, y=7, x+=10, pk=x, pk=nil, n0+=5 (a name that is only a point key), x=x/n0 (a run-time error while n0 is 0), break, continue} x if / if-else / if-elif-else x the 16 three-clause for shapes (init absent|y=0, condition absent|x<2, post absent|x=x+1|z=x|a post clause reading y) x 3 for-in forms, final probe of x, y, pk, z, n0; " +
 			"ordered probe trace + final point compared with the reference interpreter; map iteration order is tried in both orders; after EVERY program a name-reading canary script (loaded once) runs with no load in between and must see only the point's keys and nil",
 		Assumptions: []string{"non-terminating programs are cut by a signal after 3000 polls (real) / 40000 steps (reference) and compared as trace prefixes"},
 		Run:            c03Run,
